@@ -477,6 +477,11 @@ def add_custom_columns(rng: random.Random, form: dict, hostile: bool = False) ->
                 r2 = rng.choice(qrows)
                 if not any(("${" + r2["name"] + "}") in str(v) for rows in form.values() for row in rows for v in row.values()):
                     r2["name"] = rng.choice(["xmlns:q", "xml:q", "xmlns"])
+            if len(qrows) >= 2 and rng.random() < 0.5:
+                # a prefix declared on ONE element (an instance:: column) and used on another that is not inside it
+                a, b = rng.sample(qrows, 2)
+                a["instance::xmlns:zz"] = "http://example.org/zz"
+                b[rng.choice(["instance::zz:kind", "bind::zz:kind", "body::zz:kind"])] = "k"
             info["hostile"].append(("reserved", col))
             kind = None
         if kind == "linebreak" and qrows:
